@@ -199,7 +199,7 @@ pub fn run(ctx: &mut Ctx) {
         }
     }
     let tier = ctx.tier;
-    let lmax = if ctx.slow_tool { 2 } else { tier.pick(6usize, 8usize) };
+    let lmax = if ctx.slow_tool { 3 } else { tier.pick(6usize, 8usize) };
 
     if ctx.family_active("exh") {
         let mut base = 0u64;
@@ -240,7 +240,7 @@ pub fn run(ctx: &mut Ctx) {
     }
 
     // full messages with arbitrary legal compression, parsed through Packet::parse
-    let n = if ctx.slow_tool { 30 } else { tier.pick(20_000u64, 1_000_000u64) };
+    let n = if ctx.slow_tool { 320 } else { tier.pick(20_000u64, 1_000_000u64) };
     for idx in 0..n {
         if !ctx.take("msg", idx) {
             continue;
